@@ -163,7 +163,7 @@ Record Good (s : shared) (ths : list thread) : Prop := {
   g_flver : forall v, In v (fl s) -> getz (sver s) v <= hk s;
   g_fresh : forall v, nv s <= v -> getz (sver s) v = 0;
   g_boxed : forall v k, In (v, k) (boxed s) -> getz (sver s) v = k /\ k <= hk s /\ getz (nxt s) v = ACT;
-  g_wins : forall v k, In (v, k) (wins s) -> k < getz (sver s) v;
+  g_wins : forall v k, In (v, k) (wins s) -> 0 <= v /\ k < getz (sver s) v;
   g_ids : forall i, In i (ids s) -> In i (wins s) \/ In i (boxed s);
   g_miss : miss s = false;
   g_nodup : NoDup (wins s);
@@ -257,7 +257,7 @@ Lemma good_intro : forall s ths t th s' th',
   (forall v, In v (fl s') -> getz (sver s') v <= hk s') ->
   (forall v, nv s' <= v -> getz (sver s') v = 0) ->
   (forall v k, In (v, k) (boxed s') -> getz (sver s') v = k /\ k <= hk s' /\ getz (nxt s') v = ACT) ->
-  (forall v k, In (v, k) (wins s') -> k < getz (sver s') v) ->
+  (forall v k, In (v, k) (wins s') -> 0 <= v /\ k < getz (sver s') v) ->
   (forall i, In i (ids s') -> In i (wins s') \/ In i (boxed s')) ->
   miss s' = false -> NoDup (wins s') ->
   TI s' th' ->
@@ -281,4 +281,702 @@ Proof.
   apply (good_intro s ths t th s th'); auto; try (intros v; rewrite Hc; lia).
   intros t0 th0 _ Hn0. eauto.
 Qed.
+
+Lemma ACT_lt_tail : ACT < tail c.
+Proof. unfold ACTIVE_FLAG. lia. Qed.
+
+Lemma fl_range : forall s ths, Good s ths -> forall z, In z (fl s) -> 0 <= z < nv s.
+Proof. intros s ths G z Hz. destruct (excl_fl s ths z (g_cnt _ _ G) Hz) as (R & _). exact R. Qed.
+
+(* another thread's invariant when head, version and free list are untouched *)
+Lemma others_frame : forall s s' ths t0 th0, Good s ths -> nth_error ths t0 = Some th0 ->
+  hv s' = hv s -> hk s' = hk s -> fl s' = fl s ->
+  (forall v, In v (owned_thread th0) \/ In v (fl s) -> getz (nxt s') v = getz (nxt s) v) ->
+  (forall v, In v (owned_thread th0) -> getz (sver s') v = getz (sver s) v) ->
+  TI s' th0.
+Proof.
+  intros s s' ths t0 th0 G Hn Ehv Ehk Efl Hnx Hsv. apply (TI_frame s); auto.
+  - eapply g_thr; eauto.
+  - lia.
+  - intros cv ck _ _ A. unfold aba1 in *. rewrite Ehv, Ehk, Efl. exact A.
+  - intros cv ck nx _ _ A. unfold aba2 in *. rewrite Ehv, Ehk, Efl. intros E. destruct (A E) as [[A1 A2]|A1]; auto.
+    destruct (In_dec Z.eq_dec cv (fl s)) as [Hin|Hnin]; auto. left. split; auto. rewrite Hnx; auto.
+Qed.
+
+Ltac ocnt_tac :=
+  unfold ocnt, owned_thread, cntb; simpl;
+  repeat (rewrite ?cnt_app, ?cnt_cons, ?cnt_nil, ?map_app; simpl); try lia.
+
+(* the stepping thread stores into the link cell of a value it owns *)
+Lemma good_set_nxt : forall s ths t th th' x y,
+  Good s ths -> nth_error ths t = Some th -> In x (owned_thread th) ->
+  (forall w, ocnt w th' = ocnt w th) -> TI (set_nxt s x y) th' ->
+  Good (set_nxt s x y) (set_nth t th' ths).
+Proof.
+  intros s ths t th th' x y G Hn Hx Hc HT. pose proof G as G0. destruct G0.
+  destruct (excl_thread s ths t th x g_cnt0 Hn (proj1 (owned_in _ _) Hx)) as (Rx & Nfl & Nb & O1 & Oth).
+  apply (good_intro s ths t th); auto; simpl; auto.
+  - apply chain_setz; auto; try lia. intros z Hz. pose proof (fl_range _ _ G z Hz). lia.
+  - intros v k Hi. destruct (g_boxed0 _ _ Hi) as (A & B & C). repeat split; auto.
+    destruct (excl_box s ths v k g_cnt0 Hi) as (Rv & _). rewrite getz_setz_other; auto; try lia.
+    intro; subst. apply in_map_fst in Hi. apply cnt_in in Hi. unfold cntb in Nb. lia.
+  - intros t0 th0 Hne Hn0. apply (others_frame s _ ths t0); auto. simpl. intros v Hv.
+    assert (0 <= v /\ v <> x) as [P Q].
+    { destruct Hv as [Hv|Hv].
+      - destruct (excl_thread s ths t0 th0 v g_cnt0 Hn0 (proj1 (owned_in _ _) Hv)) as (Rv & _). split; [lia|].
+        intro; subst. pose proof (Oth t0 th0 Hne Hn0). apply owned_in in Hv. lia.
+      - pose proof (fl_range _ _ G v Hv). split; [lia|]. intro; subst; auto. }
+    rewrite getz_setz_other; auto; lia.
+Qed.
+
+Lemma TI_goto_same : forall s th p, TI s th -> TIpc s p -> TI s (goto th p).
+Proof. intros s th p (A & B & _) P. split; [|split]; auto. Qed.
+
+Lemma enter_alloc_good : forall s ths t th, Good s ths -> nth_error ths t = Some th ->
+  pc_owned (tpc th) = [] -> Good s (set_nth t (enter_alloc c th (hv s) (hk s)) ths).
+Proof.
+  intros s ths t th G Hn Hpc. unfold enter_alloc, alloc_nonempty.
+  pose proof (g_thr _ _ G _ _ Hn) as HT.
+  destruct (hv s =? tail c) eqn:E; simpl.
+  - apply (good_local s ths t th); auto.
+    + intros v. unfold ocnt, owned_thread. simpl. now rewrite Hpc.
+    + apply TI_goto_same; simpl; auto.
+  - apply Z.eqb_neq in E. apply (good_local s ths t th); auto.
+    + intros v. unfold ocnt, owned_thread. simpl. now rewrite Hpc.
+    + apply TI_goto_same; simpl; auto. repeat split; auto; try lia. intros _. now left.
+Qed.
+
+Lemma skip_good : forall s ths t th r, Good s ths -> nth_error ths t = Some th -> tpc th = Idle ->
+  Good s (set_nth t (ret th (held th) (taken th) r) ths).
+Proof.
+  intros s ths t th r G Hn Hpc. apply (good_local s ths t th); auto.
+  - intros v. unfold ocnt, owned_thread. simpl. now rewrite Hpc.
+  - destruct (g_thr _ _ G _ _ Hn) as (A & B & _). split; [|split]; simpl; auto.
+Qed.
+
+(* finish_alloc after the store of ACTIVE_FLAG into the cell of the value just obtained *)
+Lemma finish_alloc_good : forall s ths t th v k,
+  Good s ths -> nth_error ths t = Some th -> pc_owned (tpc th) = [v] ->
+  k <= hk s -> getz (sver s) v <= k ->
+  Good (set_nxt s v ACT) (set_nth t (finish_alloc th v k) ths).
+Proof.
+  intros s ths t th v k G Hn Hpc Hk Hs.
+  assert (Hv : In v (owned_thread th)). { apply pc_owned_in. rewrite Hpc. now left. }
+  destruct (excl_thread s ths t th v (g_cnt _ _ G) Hn (proj1 (owned_in _ _) Hv)) as (Rv & Nfl & Nb & O1 & Oth).
+  unfold ocnt, owned_thread in O1. rewrite Hpc, !cnt_app, cnt_cons, c1_same in O1.
+  destruct (g_thr _ _ G _ _ Hn) as (A & B & _).
+  assert (Hheld : forall x kx, In (x, kx) (held th) -> getz (setz (nxt s) v ACT) x = ACT /\ getz (sver s) x <= hk s).
+  { intros x kx Hi. destruct (A _ _ Hi). split; auto. rewrite getz_setz_other; auto; try lia.
+    - destruct (excl_thread s ths t th x (g_cnt _ _ G) Hn (proj1 (owned_in _ _) (held_owned _ _ _ Hi))). lia.
+    - intro; subst. apply in_map_fst in Hi. apply cnt_in in Hi. lia. }
+  assert (Htaken : forall x kx, In (x, kx) (taken th) -> getz (setz (nxt s) v ACT) x = ACT /\ getz (sver s) x <= hk s + 1).
+  { intros x kx Hi. destruct (B _ _ Hi). split; auto. rewrite getz_setz_other; auto; try lia.
+    - destruct (excl_thread s ths t th x (g_cnt _ _ G) Hn (proj1 (owned_in _ _) (taken_owned _ _ _ Hi))). lia.
+    - intro; subst. apply in_map_fst in Hi. apply cnt_in in Hi. lia. }
+  apply (good_set_nxt s ths t th); auto.
+  - intros w. unfold finish_alloc. unfold ocnt, owned_thread. rewrite Hpc.
+    destruct (prog th) as [|[] ?]; simpl; repeat (rewrite ?cnt_app, ?cnt_cons, ?cnt_nil); lia.
+  - unfold finish_alloc.
+    assert (Hret : TI (set_nxt s v ACT) (ret th ((v, k) :: held th) (taken th) (RId v k))).
+    { split; [|split]; simpl; auto. intros x kx [E|Hi]; eauto. inversion E; subst. rewrite getz_setz_same. split; auto; lia. }
+    destruct (prog th) as [|[] ?]; auto.
+    split; [|split]; simpl; auto. rewrite getz_setz_same. repeat split; auto.
+Qed.
+
+Lemma free_start_good : forall s ths t th i v k, Good s ths -> nth_error ths t = Some th -> tpc th = Idle ->
+  nth_error (held th) i = Some (v, k) ->
+  Good s (set_nth t {| prog := prog th; tpc := FStore v (hv s) (hk s); held := remove_nth i (held th);
+                       taken := taken th; results := results th |} ths).
+Proof.
+  intros s ths t th i v k G Hn Hpc Hi. destruct (g_thr _ _ G _ _ Hn) as (A & B & _).
+  apply (good_local s ths t th); auto.
+  - intros w. unfold ocnt, owned_thread. simpl. rewrite Hpc. simpl.
+    rewrite !cnt_app, cnt_cons, cnt_nil, (cnt_remove_nth _ _ _ _ w Hi). lia.
+  - split; [|split]; simpl; auto.
+    + intros x kx Hx. apply A with kx. eapply in_remove_nth; eauto.
+    + destruct (A v k (nth_error_In _ _ Hi)). lia.
+Qed.
+
+Lemma finish_start_good : forall s ths t th v k r, Good s ths -> nth_error ths t = Some th -> tpc th = Idle ->
+  taken th = (v, k) :: r ->
+  Good s (set_nth t {| prog := prog th; tpc := FStore (finish_value v) (hv s) (hk s); held := held th;
+                       taken := r; results := results th |} ths).
+Proof.
+  intros s ths t th v k r G Hn Hpc Ht. destruct (g_thr _ _ G _ _ Hn) as (A & B & _).
+  apply (good_local s ths t th); auto.
+  - intros w. unfold ocnt, owned_thread, finish_value. simpl. rewrite Hpc, Ht. simpl.
+    repeat (rewrite ?cnt_app, ?cnt_cons, ?cnt_nil). lia.
+  - split; [|split]; simpl; auto.
+    + intros x kx Hx. apply B with kx. rewrite Ht. now right.
+    + unfold finish_value. destruct (B v k). { rewrite Ht. now left. } lia.
+Qed.
+
+Lemma loadnext_good : forall s ths t th cv ck, Good s ths -> nth_error ths t = Some th -> tpc th = ALoadNext cv ck ->
+  Good s (set_nth t (goto th (ACas cv ck (getz (nxt s) (pop_link_index cv)))) ths).
+Proof.
+  intros s ths t th cv ck G Hn Hpc. pose proof (g_thr _ _ G _ _ Hn) as HT. pose proof HT as (A & B & P).
+  rewrite Hpc in P. simpl in P. destruct P as (P1 & P2 & P3).
+  apply (good_local s ths t th); auto.
+  - intros w. unfold ocnt, owned_thread. simpl. now rewrite Hpc.
+  - apply TI_goto_same; auto. simpl. repeat split; auto. unfold aba2, aba1, pop_link_index in *. intros E.
+    destruct (P3 E); auto.
+Qed.
+
+Lemma fstore_good : forall s ths t th v cv ck, Good s ths -> nth_error ths t = Some th -> tpc th = FStore v cv ck ->
+  Good (set_nxt s (push_link_index v) (push_link_value cv)) (set_nth t (goto th (FCas v cv ck)) ths).
+Proof.
+  intros s ths t th v cv ck G Hn Hpc. unfold push_link_index, push_link_value.
+  assert (Hv : In v (owned_thread th)). { apply pc_owned_in. rewrite Hpc. now left. }
+  destruct (excl_thread s ths t th v (g_cnt _ _ G) Hn (proj1 (owned_in _ _) Hv)) as (Rv & Nfl & Nb & O1 & Oth).
+  unfold ocnt, owned_thread in O1. rewrite Hpc in O1. simpl in O1. rewrite !cnt_app, cnt_cons, c1_same in O1.
+  destruct (g_thr _ _ G _ _ Hn) as (A & B & P). rewrite Hpc in P. simpl in P.
+  apply (good_set_nxt s ths t th); auto.
+  - intros w. unfold ocnt, owned_thread. simpl. now rewrite Hpc.
+  - split; [|split]; simpl.
+    + intros x kx Hi. destruct (A _ _ Hi). split; auto. rewrite getz_setz_other; auto; try lia.
+      * destruct (excl_thread s ths t th x (g_cnt _ _ G) Hn (proj1 (owned_in _ _) (held_owned _ _ _ Hi))). lia.
+      * intro; subst. apply in_map_fst in Hi. apply cnt_in in Hi. lia.
+    + intros x kx Hi. destruct (B _ _ Hi). split; auto. rewrite getz_setz_other; auto; try lia.
+      * destruct (excl_thread s ths t th x (g_cnt _ _ G) Hn (proj1 (owned_in _ _) (taken_owned _ _ _ Hi))). lia.
+      * intro; subst. apply in_map_fst in Hi. apply cnt_in in Hi. lia.
+    + split; auto. apply getz_setz_same.
+Qed.
+
+Lemma fcas_fail_good : forall s ths t th v cv ck, Good s ths -> nth_error ths t = Some th -> tpc th = FCas v cv ck ->
+  Good s (set_nth t (goto th (FStore v (hv s) (hk s))) ths).
+Proof.
+  intros s ths t th v cv ck G Hn Hpc. pose proof (g_thr _ _ G _ _ Hn) as HT. pose proof HT as (A & B & P).
+  rewrite Hpc in P. simpl in P. apply (good_local s ths t th); auto.
+  - intros w. unfold ocnt, owned_thread. simpl. now rewrite Hpc.
+  - apply TI_goto_same; auto. simpl. tauto.
+Qed.
+
+Lemma mint_good : forall s ths t th, Good s ths -> nth_error ths t = Some th -> tpc th = AMint ->
+  Good (set_nv s (nv s + mint_increment)) (set_nth t (goto th (AMintMark (nv s))) ths).
+Proof.
+  intros s ths t th G Hn Hpc. pose proof G as G0. destruct G0. unfold mint_increment.
+  destruct (g_thr0 _ _ Hn) as (A & B & _).
+  refine (good_intro s ths t th _ _ G Hn _ _ _ _ _ _ _ _ _ _ _ _); simpl; auto.
+  - intros w. unfold ocnt, owned_thread, cntb, inrange. simpl. rewrite Hpc. simpl. rewrite !cnt_app, cnt_cons, !cnt_nil.
+    unfold c1. destruct (Z.eq_dec (nv s) w).
+    + subst. replace (0 <=? nv s) with true by (symmetry; apply Z.leb_le; lia).
+      replace (nv s <? nv s) with false by (symmetry; apply Z.ltb_ge; lia).
+      replace (nv s <? nv s + 1) with true by (symmetry; apply Z.ltb_lt; lia). simpl. lia.
+    + destruct (0 <=? w) eqn:E1; simpl; try lia.
+      destruct (w <? nv s) eqn:E2; destruct (w <? nv s + 1) eqn:E3; lia.
+  - lia.
+  - intros v Hv. apply g_fresh0. lia.
+  - split; [|split]; simpl; auto. rewrite g_fresh0; lia.
+  - intros t0 th0 Hne Hn0. apply (others_frame s _ ths t0); auto.
+Qed.
+
+Lemma acas_ok_good : forall s ths t th cv ck nx, Good s ths -> nth_error ths t = Some th ->
+  tpc th = ACas cv ck nx -> hv s = cv -> hk s = ck ->
+  Good (set_head s nx (wrapk c (pop_new_version ck)) (tl (fl s))) (set_nth t (goto th (AMark cv ck)) ths).
+Proof.
+  intros s ths t th cv ck nx G Hn Hpc Ehv Ehk. rewrite wrapk_id. unfold pop_new_version. subst cv ck.
+  pose proof G as G0. destruct G0.
+  destruct (g_thr0 _ _ Hn) as (A & B & P). rewrite Hpc in P. simpl in P. destruct P as (P1 & P2 & P3).
+  destruct (chain_head _ _ _ g_chain0 P1) as (r & Efl & Hch).
+  assert (Hin : In (hv s) (fl s)) by (rewrite Efl; now left).
+  assert (Enx : getz (nxt s) (hv s) = nx). { destruct (P3 eq_refl) as [[_ E]|N]; [auto|contradiction]. }
+  pose proof (nodup_fl s ths g_cnt0) as ND. rewrite Efl in ND. inversion ND as [|? ? Nr NDr]. subst x l.
+  refine (good_intro s ths t th _ _ G Hn _ _ _ _ _ _ _ _ _ _ _ _); simpl.
+  - intros w. rewrite Efl. simpl. unfold ocnt, owned_thread, cntb, inrange. simpl. rewrite Hpc. simpl.
+    repeat (rewrite ?cnt_app, ?cnt_cons, ?cnt_nil). lia.
+  - rewrite Efl. simpl. rewrite <- Enx. exact Hch.
+  - auto.
+  - intros v Hv. apply g_flver0. rewrite Efl in *. now right.
+  - auto.
+  - auto.
+  - auto.
+  - auto.
+  - auto.
+  - auto.
+  - split; [exact A | split; [exact B |]]. simpl. split; [lia | apply g_flver0; exact Hin].
+  - intros t0 th0 Hne Hn0. apply (TI_frame s); simpl; auto; try lia.
+    + eapply g_thr0; eauto.
+    + intros cv ck Hcv Hck Ab. unfold aba1 in *. simpl. intros E. rewrite Efl. simpl. right.
+      destruct (Ab E) as [E1|N1].
+      * subst cv. auto.
+      * intro Hr. apply N1. rewrite Efl. now right.
+    + intros cv ck nx0 Hcv Hck Ab. unfold aba2 in *. simpl. intros E. rewrite Efl. simpl. right.
+      destruct (Ab E) as [[E1 _]|N1].
+      * subst cv. auto.
+      * intro Hr. apply N1. rewrite Efl. now right.
+Qed.
+
+Lemma fcas_ok_good : forall s ths t th v cv ck, Good s ths -> nv s <= ACT -> nth_error ths t = Some th ->
+  tpc th = FCas v cv ck -> hv s = cv -> hk s = ck ->
+  Good (set_head s v (wrapk c (push_new_version ck)) (v :: fl s)) (set_nth t (finish_free th) ths).
+Proof.
+  intros s ths t th v cv ck G Hnv Hn Hpc Ehv Ehk. rewrite wrapk_id. unfold push_new_version. subst cv ck.
+  pose proof G as G0. destruct G0.
+  destruct (g_thr0 _ _ Hn) as (A & B & P). rewrite Hpc in P. simpl in P. destruct P as (P1 & P2).
+  assert (Hv : In v (owned_thread th)). { apply pc_owned_in. rewrite Hpc. now left. }
+  destruct (excl_thread s ths t th v g_cnt0 Hn (proj1 (owned_in _ _) Hv)) as (Rv & Nfl & Nb & O1 & Oth).
+  refine (good_intro s ths t th _ _ G Hn _ _ _ _ _ _ _ _ _ _ _ _); simpl.
+  - intros w. unfold finish_free, ocnt, owned_thread, cntb, inrange. simpl. rewrite Hpc. simpl.
+    repeat (rewrite ?cnt_app, ?cnt_cons, ?cnt_nil). lia.
+  - split; auto. rewrite P2. exact g_chain0.
+  - lia.
+  - intros x [E|Hx]; [subst; lia|]. specialize (g_flver0 _ Hx). lia.
+  - auto.
+  - intros x k Hi. destruct (g_boxed0 _ _ Hi) as (?&?&?). repeat split; auto. lia.
+  - auto.
+  - auto.
+  - auto.
+  - auto.
+  - unfold finish_free. split; [|split]; simpl; auto.
+    + intros x k Hi. destruct (A _ _ Hi). split; auto. lia.
+    + intros x k Hi. destruct (B _ _ Hi). split; auto. lia.
+  - intros t0 th0 Hne Hn0. apply (TI_frame s); simpl; auto; try lia.
+    + eapply g_thr0; eauto.
+    + intros cv ck Hcv Hck Ab. unfold aba1. simpl. intros E. lia.
+    + intros cv ck nx0 Hcv Hck Ab. unfold aba2. simpl. intros E. lia.
+Qed.
+
+Lemma eslot_good : forall s ths t th v k, Good s ths -> nth_error ths t = Some th -> tpc th = ESlot v k ->
+  Good (set_box s (setz (sver s) (emplace_slot_index v) (emplace_version k)) (ids s ++ [(v, k)])
+                ((v, k) :: boxed s) (wins s) (miss s))
+       (set_nth t (ret th (held th) (taken th) (REmp v k)) ths).
+Proof.
+  intros s ths t th v k G Hn Hpc. unfold emplace_slot_index, emplace_version.
+  pose proof G as G0. destruct G0.
+  destruct (g_thr0 _ _ Hn) as (A & B & P). rewrite Hpc in P. simpl in P. destruct P as (P1 & P2 & P3).
+  assert (Hv : In v (owned_thread th)). { apply pc_owned_in. rewrite Hpc. now left. }
+  destruct (excl_thread s ths t th v g_cnt0 Hn (proj1 (owned_in _ _) Hv)) as (Rv & Nfl & Nb & O1 & Oth).
+  unfold ocnt, owned_thread in O1. rewrite Hpc in O1. simpl in O1. rewrite !cnt_app, cnt_cons, c1_same in O1.
+  refine (good_intro s ths t th _ _ G Hn _ _ _ _ _ _ _ _ _ _ _ _); simpl.
+  - intros w. unfold ocnt, owned_thread, cntb, inrange. simpl. rewrite Hpc. simpl.
+    repeat (rewrite ?cnt_app, ?cnt_cons, ?cnt_nil). lia.
+  - exact g_chain0.
+  - auto.
+  - intros x Hx. pose proof (fl_range _ _ G x Hx). rewrite getz_setz_other; auto; try lia. intro; subst; auto.
+  - intros x Hx. rewrite getz_setz_other; auto; try lia.
+  - intros x kx [E|Hi].
+    + inversion E; subst. rewrite getz_setz_same. auto.
+    + destruct (excl_box s ths x kx g_cnt0 Hi) as (Rx & _). destruct (g_boxed0 _ _ Hi) as (?&?&?).
+      rewrite getz_setz_other; auto; try lia. intro; subst. apply in_map_fst in Hi. apply cnt_in in Hi. unfold cntb in Nb. lia.
+  - intros x kx Hi. destruct (g_wins0 _ _ Hi) as [W0 W1]. split; auto. destruct (Z.eq_dec x v).
+    + subst. rewrite getz_setz_same. lia.
+    + rewrite getz_setz_other; auto; lia.
+  - intros i Hi. apply in_app_or in Hi. destruct Hi as [Hi|[E|[]]].
+    + destruct (g_ids0 _ Hi); auto.
+    + subst. right. now left.
+  - auto.
+  - auto.
+  - split; [|split]; simpl; auto.
+    + intros x kx Hi. destruct (A _ _ Hi). split; auto. rewrite getz_setz_other; auto; try lia.
+      * destruct (excl_thread s ths t th x g_cnt0 Hn (proj1 (owned_in _ _) (held_owned _ _ _ Hi))). lia.
+      * intro; subst. apply in_map_fst in Hi. apply cnt_in in Hi. lia.
+    + intros x kx Hi. destruct (B _ _ Hi). split; auto. rewrite getz_setz_other; auto; try lia.
+      * destruct (excl_thread s ths t th x g_cnt0 Hn (proj1 (owned_in _ _) (taken_owned _ _ _ Hi))). lia.
+      * intro; subst. apply in_map_fst in Hi. apply cnt_in in Hi. lia.
+  - intros t0 th0 Hne Hn0. apply (others_frame s _ ths t0); auto. simpl. intros x Hx.
+    destruct (excl_thread s ths t0 th0 x g_cnt0 Hn0 (proj1 (owned_in _ _) Hx)) as (Rx & _).
+    rewrite getz_setz_other; auto; try lia. intro; subst. pose proof (Oth t0 th0 Hne Hn0). apply owned_in in Hx. lia.
+Qed.
+
+Lemma take_ok_good : forall s ths t th v kk, Good s ths -> nth_error ths t = Some th -> tpc th = Idle ->
+  In (v, kk) (ids s) -> getz (sver s) (take_slot_index v) = take_expected kk ->
+  Good (set_box s (setz (sver s) (take_slot_index v) (wrapk c (take_desired kk))) (ids s)
+                (remove_v v (boxed s)) ((v, kk) :: wins s) (miss s))
+       (set_nth t (ret th (held th) (taken th ++ [(v, kk)]) (RTake true)) ths).
+Proof.
+  intros s ths t th v kk G Hn Hpc Hid Hcas. rewrite wrapk_id. unfold take_slot_index, take_expected, take_desired in *.
+  pose proof G as G0. destruct G0.
+  destruct (g_thr0 _ _ Hn) as (A & B & _).
+  assert (Hb : In (v, kk) (boxed s)).
+  { destruct (g_ids0 _ Hid) as [W|Bx]; auto. destruct (g_wins0 _ _ W). lia. }
+  destruct (excl_box s ths v kk g_cnt0 Hb) as (Rv & Nfl & Cb & Oall).
+  destruct (g_boxed0 _ _ Hb) as (B1 & B2 & B3).
+  pose proof (cnt_remove_v (boxed s) v) as CR. specialize (fun w => CR w (in_map_fst _ _ _ Hb)).
+  assert (Nrem : forall x kx, In (x, kx) (remove_v v (boxed s)) -> x <> v).
+  { intros x kx Hi Ex. subst x. apply in_map_fst in Hi. apply cnt_in in Hi. specialize (CR v). rewrite c1_same in CR.
+    unfold cntb in Cb. lia. }
+  assert (Hown : forall t0 th0 x, nth_error ths t0 = Some th0 -> In x (owned_thread th0) -> 0 <= x /\ x <> v).
+  { intros t0 th0 x Hn0 Hx. destruct (excl_thread s ths t0 th0 x g_cnt0 Hn0 (proj1 (owned_in _ _) Hx)) as (Rx & _).
+    split; [lia|]. intro; subst. pose proof (Oall t0 th0 Hn0). apply owned_in in Hx. lia. }
+  refine (good_intro s ths t th _ _ G Hn _ _ _ _ _ _ _ _ _ _ _ _); simpl.
+  - intros w. unfold ocnt, owned_thread, cntb, inrange. simpl. rewrite Hpc. simpl. specialize (CR w).
+    repeat (rewrite ?map_app, ?cnt_app, ?cnt_cons, ?cnt_nil). simpl. rewrite cnt_cons, cnt_nil. unfold id in *. lia.
+  - exact g_chain0.
+  - auto.
+  - intros x Hx. pose proof (fl_range _ _ G x Hx). rewrite getz_setz_other; auto; try lia. intro; subst; auto.
+  - intros x Hx. rewrite getz_setz_other; auto; try lia.
+  - intros x kx Hi. pose proof (Nrem _ _ Hi). apply in_remove_v in Hi.
+    destruct (excl_box s ths x kx g_cnt0 Hi) as (Rx & _). rewrite getz_setz_other; auto; try lia.
+  - intros x kx [E|Hi].
+    + inversion E; subst. rewrite getz_setz_same. lia.
+    + destruct (g_wins0 _ _ Hi) as [W0 W1]. split; auto. destruct (Z.eq_dec x v).
+      * subst. rewrite getz_setz_same. lia.
+      * rewrite getz_setz_other; auto; lia.
+  - intros [x kx] Hi. destruct (g_ids0 _ Hi) as [W|Bx]; [left; now right|].
+    destruct (Z.eq_dec x v).
+    + subst. destruct (g_boxed0 _ _ Bx) as (E & _). left. left. f_equal. lia.
+    + right. apply in_remove_v_other; auto.
+  - auto.
+  - constructor; auto. intro W. destruct (g_wins0 _ _ W). lia.
+  - split; [|split]; simpl; auto.
+    + intros x kx Hi. destruct (A _ _ Hi). destruct (Hown t th x Hn (held_owned _ _ _ Hi)). split; auto.
+      rewrite getz_setz_other; auto; lia.
+    + intros x kx Hi. apply in_app_or in Hi. destruct Hi as [Hi|[E|[]]].
+      * destruct (B _ _ Hi). destruct (Hown t th x Hn (taken_owned _ _ _ Hi)). split; auto.
+        rewrite getz_setz_other; auto; lia.
+      * inversion E; subst. rewrite getz_setz_same. split; auto. lia.
+  - intros t0 th0 Hne Hn0. apply (others_frame s _ ths t0); auto. simpl. intros x Hx.
+    destruct (Hown t0 th0 x Hn0 Hx). rewrite getz_setz_other; auto; lia.
+Qed.
+
+Lemma take_fail_good : forall s ths t th v kk, Good s ths -> nth_error ths t = Some th -> tpc th = Idle ->
+  In (v, kk) (ids s) -> getz (sver s) (take_slot_index v) <> take_expected kk ->
+  Good (set_box s (sver s) (ids s) (boxed s) (wins s) (miss s || negb (mem_id (v, kk) (wins s))))
+       (set_nth t (ret th (held th) (taken th) (RTake false)) ths).
+Proof.
+  intros s ths t th v kk G Hn Hpc Hid Hcas. unfold take_slot_index, take_expected in *.
+  pose proof G as G0. destruct G0. destruct (g_thr0 _ _ Hn) as (A & B & _).
+  assert (W : In (v, kk) (wins s)).
+  { destruct (g_ids0 _ Hid) as [W|Bx]; auto. destruct (g_boxed0 _ _ Bx). congruence. }
+  refine (good_intro s ths t th _ _ G Hn _ _ _ _ _ _ _ _ _ _ _ _); simpl; auto.
+  - intros w. unfold ocnt, owned_thread, cntb, inrange. simpl. rewrite Hpc. simpl. lia.
+  - rewrite g_miss0, (mem_id_in _ _ W). reflexivity.
+  - split; [|split]; simpl; auto.
+  - intros t0 th0 Hne Hn0. apply (others_frame s _ ths t0); auto.
+Qed.
+
+Lemma tstep_good : forall s ths t th s' th', Good s ths -> nv s <= ACT -> nth_error ths t = Some th ->
+  tstep c s th = Some (s', th') -> Good s' (set_nth t th' ths).
+Proof.
+  intros s ths t th s' th' G Hnv Hn Hs. unfold tstep in Hs.
+  pose proof (g_thr _ _ G _ _ Hn) as (TA & TB & TP).
+  destruct (tpc th) eqn:Hpc; simpl in TP.
+  - destruct (prog th) as [|o r] eqn:Hp; [discriminate|]. destruct o.
+    + inversion Hs; subst. apply enter_alloc_good; auto. now rewrite Hpc.
+    + destruct (nth_error (held th) i) as [[v k]|] eqn:Hi; inversion Hs; subst.
+      * rewrite <- Hp. eapply free_start_good; eauto.
+      * apply skip_good; auto.
+    + inversion Hs; subst. apply enter_alloc_good; auto. now rewrite Hpc.
+    + destruct (nth_error (ids s) k) as [[v kk]|] eqn:Hk.
+      * pose proof (nth_error_In _ _ Hk) as Hin.
+        destruct (getz (sver s) (take_slot_index v) =? take_expected kk) eqn:E; inversion Hs; subst.
+        -- apply Z.eqb_eq in E. apply take_ok_good; auto.
+        -- apply Z.eqb_neq in E. apply take_fail_good; auto.
+      * inversion Hs; subst. apply skip_good; auto.
+    + destruct (taken th) as [|[v k] r'] eqn:Ht; inversion Hs; subst.
+      * rewrite <- Ht. apply skip_good; auto.
+      * rewrite <- Hp. eapply finish_start_good; eauto.
+  - inversion Hs; subst. eapply loadnext_good; eauto.
+  - destruct ((hv s =? cv) && (hk s =? ck)) eqn:E; inversion Hs; subst.
+    + apply andb_prop in E. destruct E as [E1 E2]. apply Z.eqb_eq in E1. apply Z.eqb_eq in E2. eapply acas_ok_good; eauto.
+    + apply enter_alloc_good; auto. now rewrite Hpc.
+  - inversion Hs; subst. unfold pop_mark_index. destruct TP. apply finish_alloc_good; auto. now rewrite Hpc.
+  - inversion Hs; subst. apply mint_good; auto.
+  - inversion Hs; subst. pose proof (g_pos _ _ G). apply finish_alloc_good; auto; try lia. now rewrite Hpc.
+  - inversion Hs; subst. eapply fstore_good; eauto.
+  - destruct ((hv s =? cv) && (hk s =? ck)) eqn:E; inversion Hs; subst.
+    + apply andb_prop in E. destruct E as [E1 E2]. apply Z.eqb_eq in E1. apply Z.eqb_eq in E2. eapply fcas_ok_good; eauto.
+    + eapply fcas_fail_good; eauto.
+  - inversion Hs; subst. eapply eslot_good; eauto.
+Qed.
+
+Lemma tstep_nv_mono : forall s th s' th', tstep c s th = Some (s', th') -> nv s <= nv s'.
+Proof.
+  intros s th s' th' Hs. unfold tstep in Hs.
+  destruct (tpc th); repeat match type of Hs with
+    | context [match ?x with _ => _ end] => destruct x
+    end; inversion Hs; subst; simpl; unfold mint_increment; lia.
+Qed.
 End Inv.
+
+(* ------------------------------------------------------------------------------- reachability and theorems *)
+Definition ACTc (c : cfg) : Z := ACTIVE_FLAG (tail c).
+Definition Reach (c : cfg) (progs : list (list op)) (s : st) : Prop := reachable st (step c) (init c progs) s.
+
+Lemma sumf_map_zero : forall A B (g : A -> B) (f : B -> nat) l, (forall a, f (g a) = O) -> sumf f (map g l) = O.
+Proof. induction l; simpl; intros H; auto. rewrite H, IHl; auto. Qed.
+
+Lemma init_good : forall c progs, Good c (init_shared c) (map mk_thread progs).
+Proof.
+  intros c progs. constructor; simpl; auto; try lia; try tauto.
+  - intros v. unfold total, cntb, inrange. simpl. rewrite sumf_map_zero by reflexivity.
+    destruct (0 <=? v) eqn:A; destruct (v <? 0) eqn:B; simpl; try reflexivity; lia.
+  - intros v _. unfold getz. destruct (Z.to_nat v); reflexivity.
+  - constructor.
+  - intros t th Hn. apply nth_error_In in Hn. apply in_map_iff in Hn. destruct Hn as (p & <- & _).
+    split; [|split]; simpl; tauto.
+Qed.
+
+Lemma step_nv_mono : forall c s t s', step c s t = Some s' -> nv (sh s) <= nv (sh s').
+Proof.
+  intros c s t s' H. unfold step in H. destruct (nth_error (threads s) t) as [th|]; [|discriminate].
+  destruct (tstep c (sh s) th) as [[s1 th1]|] eqn:E; [|discriminate]. inversion H; subst. simpl.
+  eapply tstep_nv_mono; eauto.
+Qed.
+
+Theorem id_good : forall c progs s, vmod c = 0 -> Reach c progs s -> nv (sh s) <= ACTc c -> Good c (sh s) (threads s).
+Proof.
+  intros c progs s Hvm HR. revert s HR.
+  apply (inv_reachable st (step c) (fun s => nv (sh s) <= ACTc c -> Good c (sh s) (threads s))).
+  - intros _. apply init_good.
+  - intros s t s' IH Hs Hnv. pose proof (step_nv_mono _ _ _ _ Hs) as Hm. unfold step in Hs.
+    destruct (nth_error (threads s) t) as [th|] eqn:Hn; [|discriminate].
+    destruct (tstep c (sh s) th) as [[s1 th1]|] eqn:E; [|discriminate]. inversion Hs; subst. simpl in *.
+    apply (tstep_good c Hvm (sh s) (threads s) t th s1 th1); auto.
+    + apply IH. lia.
+    + unfold ACTc in *. lia.
+Qed.
+
+(* every value that is on the free list or owned (kept, taken, boxed, or in transit inside allocate/deallocate/emplace) *)
+Definition owners (s : st) : list Z := flat_map owned_thread (threads s) ++ map fst (boxed (sh s)).
+
+Lemma cnt_flat_map : forall v ths, cnt v (flat_map owned_thread ths) = sumf (ocnt v) ths.
+Proof. induction ths; simpl; auto. rewrite cnt_app, IHths. reflexivity. Qed.
+
+Theorem id_unique_owner : forall c progs s, vmod c = 0 -> Reach c progs s -> nv (sh s) <= ACTc c ->
+  NoDup (fl (sh s) ++ owners s).
+Proof.
+  intros c progs s Hvm HR Hnv. pose proof (id_good c progs s Hvm HR Hnv) as G.
+  apply (NoDup_count_occ Z.eq_dec). intros x. pose proof (g_cnt _ _ _ G x) as E. unfold total, cntb in E.
+  fold (cnt x (fl (sh s) ++ owners s)). unfold owners. rewrite !cnt_app, cnt_flat_map.
+  pose proof (inrange_le1 (sh s) x). lia.
+Qed.
+
+Lemma held_values_incl : forall s v, (cnt v (held_values s) <= cnt v (owners s))%nat.
+Proof.
+  intros s v. unfold held_values, owners. rewrite !cnt_app. apply Nat.add_le_mono_r.
+  induction (threads s); simpl; auto. rewrite !cnt_app. unfold owned_thread at 1. rewrite !cnt_app. lia.
+Qed.
+
+Theorem id_held_unique : forall c progs s, vmod c = 0 -> Reach c progs s -> nv (sh s) <= ACTc c ->
+  NoDup (held_values s) /\ (forall v, In v (held_values s) -> ~ In v (fl (sh s))).
+Proof.
+  intros c progs s Hvm HR Hnv. pose proof (id_unique_owner c progs s Hvm HR Hnv) as ND.
+  rewrite (NoDup_count_occ Z.eq_dec) in ND. split.
+  - apply (NoDup_count_occ Z.eq_dec). intros x. specialize (ND x). fold (cnt x (fl (sh s) ++ owners s)) in ND.
+    rewrite cnt_app in ND. pose proof (held_values_incl s x). fold (cnt x (held_values s)). lia.
+  - intros v Hv Hf. specialize (ND v). fold (cnt v (fl (sh s) ++ owners s)) in ND. rewrite cnt_app in ND.
+    apply cnt_in in Hv. apply cnt_in in Hf. pose proof (held_values_incl s v). lia.
+Qed.
+
+(* two different threads never own the same value (thread ids of simultaneously live threads differ) *)
+Theorem id_threads_disjoint : forall c progs s t1 t2 th1 th2 v, vmod c = 0 -> Reach c progs s -> nv (sh s) <= ACTc c ->
+  t1 <> t2 -> nth_error (threads s) t1 = Some th1 -> nth_error (threads s) t2 = Some th2 ->
+  In v (owned_thread th1) -> In v (owned_thread th2) -> False.
+Proof.
+  intros c progs s t1 t2 th1 th2 v Hvm HR Hnv Hne H1 H2 I1 I2. pose proof (id_good c progs s Hvm HR Hnv) as G.
+  destruct (excl_thread (sh s) (threads s) t1 th1 v (g_cnt _ _ _ G) H1 (proj1 (owned_in _ _) I1)) as (_ & _ & _ & _ & O).
+  specialize (O t2 th2 (not_eq_sym Hne) H2). apply owned_in in I2. lia.
+Qed.
+
+(* ABA: whenever the pop CAS of a thread would succeed, the link it read earlier is the current link of the top *)
+Theorem id_pop_cas_current : forall c progs s t th cv ck nx, vmod c = 0 -> Reach c progs s -> nv (sh s) <= ACTc c ->
+  nth_error (threads s) t = Some th -> tpc th = ACas cv ck nx -> hv (sh s) = cv -> hk (sh s) = ck ->
+  getz (nxt (sh s)) cv = nx /\ exists r, fl (sh s) = cv :: r.
+Proof.
+  intros c progs s t th cv ck nx Hvm HR Hnv Hn Hpc Ehv Ehk. pose proof (id_good c progs s Hvm HR Hnv) as G.
+  destruct (g_thr _ _ _ G _ _ Hn) as (_ & _ & P). rewrite Hpc in P. simpl in P. destruct P as (P1 & P2 & P3).
+  destruct (chain_head c _ _ _ (g_chain _ _ _ G)) as (r & Efl & _). { rewrite Ehv. exact P1. }
+  rewrite Ehv in Efl. split; [|eauto]. destruct (P3 (eq_sym Ehk)) as [[_ E]|N]; auto.
+  exfalso. apply N. rewrite Efl. now left.
+Qed.
+
+(* deposit box *)
+Theorem id_one_taker : forall c progs s, vmod c = 0 -> Reach c progs s -> nv (sh s) <= ACTc c ->
+  NoDup (wins (sh s)) /\ miss (sh s) = false.
+Proof.
+  intros c progs s Hvm HR Hnv. pose proof (id_good c progs s Hvm HR Hnv) as G. split; [apply (g_nodup _ _ _ G)|apply (g_miss _ _ _ G)].
+Qed.
+
+Theorem id_issued_won_or_boxed : forall c progs s i, vmod c = 0 -> Reach c progs s -> nv (sh s) <= ACTc c ->
+  In i (ids (sh s)) -> In i (wins (sh s)) \/ (In i (boxed (sh s)) /\ getz (sver (sh s)) (fst i) = snd i).
+Proof.
+  intros c progs s [v k] Hvm HR Hnv Hi. pose proof (id_good c progs s Hvm HR Hnv) as G.
+  destruct (g_ids _ _ _ G _ Hi) as [W|B]; auto. right. split; auto. simpl. destruct (g_boxed _ _ _ G _ _ B). auto.
+Qed.
+
+Lemma tstep_wins_mono : forall c s th s' th', tstep c s th = Some (s', th') -> incl (wins s) (wins s').
+Proof.
+  intros c s th s' th' Hs. unfold tstep in Hs.
+  destruct (tpc th); repeat match type of Hs with
+    | context [match ?x with _ => _ end] => destruct x
+    end; inversion Hs; subst; simpl; try apply incl_refl; try (apply incl_tl, incl_refl).
+Qed.
+Lemma run_wins_mono : forall c sch s, incl (wins (sh s)) (wins (sh (run st (step c) s sch))).
+Proof.
+  intros c sch. induction sch as [|t r IH]; intros s; simpl; [apply incl_refl|].
+  eapply incl_tran; [|apply IH]. unfold step_or_stay, step.
+  destruct (nth_error (threads s) t) as [th|]; [|apply incl_refl].
+  destruct (tstep c (sh s) th) as [[s1 th1]|] eqn:E; [|apply incl_refl]. simpl. eapply tstep_wins_mono; eauto.
+Qed.
+
+Lemma reach_run : forall c progs s sch, Reach c progs s -> Reach c progs (run st (step c) s sch).
+Proof. intros c progs s sch [sch0 <-]. exists (sch0 ++ sch). apply run_app. Qed.
+
+(* an id whose item was taken never matches its slot again, whatever happens afterwards *)
+Theorem id_stale_never_matches : forall c progs s v k sch, vmod c = 0 -> Reach c progs s -> In (v, k) (wins (sh s)) ->
+  let s2 := run st (step c) s sch in nv (sh s2) <= ACTc c -> k < getz (sver (sh s2)) v.
+Proof.
+  intros c progs s v k sch Hvm HR Hw s2 Hnv. pose proof (reach_run c progs s sch HR) as HR2. fold s2 in HR2.
+  pose proof (id_good c progs s2 Hvm HR2 Hnv) as G. apply (g_wins _ _ _ G). apply (run_wins_mono c sch s). exact Hw.
+Qed.
+
+(* ------------------------------------------------------------------------------------ for_each at quiescence *)
+Lemma in_zseq : forall n v, In v (zseq n) <-> 0 <= v < n.
+Proof.
+  unfold zseq. intros n v. rewrite in_map_iff. split.
+  - intros (k & <- & Hk). apply in_seq in Hk. lia.
+  - intros H. exists (Z.to_nat v). split; [lia|]. apply in_seq. lia.
+Qed.
+Lemma chain_next : forall c nx l h, chain c nx h l -> forall x, In x l -> getz nx x = tail c \/ In (getz nx x) l.
+Proof.
+  induction l; simpl; intros h Hc x Hx; [tauto|]. destruct Hc as [-> Hc]. destruct Hx as [->|Hx].
+  - destruct l; simpl in Hc; [now left|]. destruct Hc as [E _]. right. right. left. symmetry. exact E.
+  - destruct (IHl _ Hc x Hx); auto.
+Qed.
+Lemma sumf_pos : forall A (f : A -> nat) l, (sumf f l >= 1)%nat -> exists a, In a l /\ (f a >= 1)%nat.
+Proof.
+  induction l; simpl; intros H; [lia|]. destruct (f a) eqn:E.
+  - destruct IHl as (b & Hb & Hf); [lia|]. exists b. split; auto.
+  - exists a. split; auto. lia.
+Qed.
+Lemma forallb_nth : forall A (p : A -> bool) l t a, forallb p l = true -> nth_error l t = Some a -> p a = true.
+Proof. intros A p l t a H Hn. rewrite forallb_forall in H. apply H. eapply nth_error_In; eauto. Qed.
+
+Theorem id_for_each_exact : forall c progs s, vmod c = 0 -> Reach c progs s -> nv (sh s) <= ACTc c ->
+  quiescent s = true -> forall v, In v (live c (sh s)) <-> In v (held_values s).
+Proof.
+  intros c progs s Hvm HR Hnv Hq v. pose proof (id_good c progs s Hvm HR Hnv) as G. unfold live, held_values.
+  rewrite filter_In, in_zseq, Z.eqb_eq. split.
+  - intros [Hr Ha]. pose proof (g_cnt _ _ _ G v) as E. rewrite (proj2 (inrange_1 _ _) Hr) in E. unfold total in E.
+    destruct (In_dec Z.eq_dec v (fl (sh s))) as [Hf|Hf].
+    { exfalso. pose proof ACT_lt_tail c. unfold ACTc in *.
+      destruct (chain_next c _ _ _ (g_chain _ _ _ G) v Hf) as [T|I]; [lia|].
+      pose proof (fl_range c _ _ G _ I). lia. }
+    apply in_or_app. destruct (In_dec Z.eq_dec v (map fst (boxed (sh s)))) as [Hb|Hb]; [now right|]. left.
+    apply cnt_notin in Hf. apply cnt_notin in Hb. unfold cntb in E.
+    destruct (sumf_pos _ (ocnt v) (threads s)) as (th & Hth & Ho); [lia|].
+    apply in_flat_map. exists th. split; auto. apply owned_in in Ho. unfold owned_thread in Ho.
+    unfold quiescent in Hq. rewrite forallb_forall in Hq. specialize (Hq th Hth). unfold thread_idle in Hq.
+    destruct (tpc th); try discriminate. simpl in Ho. rewrite app_nil_r in Ho. exact Ho.
+  - intros Hi. apply in_app_or in Hi. destruct Hi as [Hi|Hi].
+    + apply in_flat_map in Hi. destruct Hi as (th & Hth & Hv). destruct (In_nth_error _ _ Hth) as (t & Hn).
+      destruct (g_thr _ _ _ G _ _ Hn) as (A & B & _).
+      assert (Ho : In v (owned_thread th)).
+      { unfold owned_thread. apply in_app_or in Hv. destruct Hv; apply in_or_app; [left|right; apply in_or_app; left]; auto. }
+      destruct (excl_thread (sh s) (threads s) t th v (g_cnt _ _ _ G) Hn (proj1 (owned_in _ _) Ho)) as (R & _).
+      split; auto. apply in_app_or in Hv. destruct Hv as [Hv|Hv]; apply in_map_iff in Hv; destruct Hv as ([x k] & <- & Hxk); simpl.
+      * destruct (A _ _ Hxk); auto.
+      * destruct (B _ _ Hxk); auto.
+    + apply in_map_iff in Hi. destruct Hi as ([x k] & <- & Hxk). simpl.
+      destruct (excl_box (sh s) (threads s) x k (g_cnt _ _ _ G) Hxk) as (R & _). split; auto.
+      destruct (g_boxed _ _ _ G _ _ Hxk) as (_ & _ & E). exact E.
+Qed.
+
+(* --------------------------------------------------------------------------------------- reuse when quiet *)
+Lemma set_nth_set_nth : forall A (l : list A) t a b, set_nth t b (set_nth t a l) = set_nth t b l.
+Proof. induction l; intros t a0 b; destruct t; simpl; auto. now rewrite IHl. Qed.
+
+Lemma step_eq : forall c s t th s1 th1, nth_error (threads s) t = Some th -> tstep c (sh s) th = Some (s1, th1) ->
+  step_or_stay st (step c) s t = {| sh := s1; threads := set_nth t th1 (threads s) |}.
+Proof. intros c s t th s1 th1 Hn Hs. unfold step_or_stay, step. now rewrite Hn, Hs. Qed.
+
+Theorem id_reuse_when_quiet : forall c progs s t th x rest r, vmod c = 0 -> Reach c progs s -> nv (sh s) <= ACTc c ->
+  nth_error (threads s) t = Some th -> tpc th = Idle -> prog th = OAlloc :: r -> fl (sh s) = x :: rest ->
+  let s' := run st (step c) s [t; t; t; t] in
+  nv (sh s') = nv (sh s) /\ fl (sh s') = rest /\
+  exists th', nth_error (threads s') t = Some th' /\ tpc th' = Idle /\ prog th' = r /\
+              held th' = (x, hk (sh s)) :: held th /\ results th' = RId x (hk (sh s)) :: results th.
+Proof.
+  intros c progs s t th x rest r Hvm HR Hnv Hn Hpc Hp Hfl. pose proof (id_good c progs s Hvm HR Hnv) as G.
+  assert (Ehv : hv (sh s) = x). { pose proof (g_chain _ _ _ G) as Hc. rewrite Hfl in Hc. simpl in Hc. tauto. }
+  assert (Hx : (x =? tail c) = false).
+  { apply Z.eqb_neq. pose proof (fl_range c _ _ G x). rewrite Hfl in H. specialize (H (or_introl eq_refl)).
+    pose proof (ACT_lt_tail c). unfold ACTc in *. lia. }
+  set (k0 := hk (sh s)). set (nx := getz (nxt (sh s)) x).
+  set (s1 := {| sh := sh s; threads := set_nth t (goto th (ALoadNext x k0)) (threads s) |}).
+  set (s2 := {| sh := sh s; threads := set_nth t (goto th (ACas x k0 nx)) (threads s) |}).
+  set (sh3 := set_head (sh s) nx (wrapk c k0) (tl (fl (sh s)))).
+  set (s3 := {| sh := sh3; threads := set_nth t (goto th (AMark x k0)) (threads s) |}).
+  set (s4 := {| sh := set_nxt sh3 x (ACTIVE_FLAG (tail c));
+                threads := set_nth t (ret th ((x, k0) :: held th) (taken th) (RId x k0)) (threads s) |}).
+  assert (E1 : step_or_stay st (step c) s t = s1).
+  { apply (step_eq c s t th). auto. unfold tstep. rewrite Hpc, Hp. unfold enter_alloc, alloc_nonempty. rewrite Ehv, Hx. reflexivity. }
+  assert (E2 : step_or_stay st (step c) s1 t = s2).
+  { rewrite (step_eq c s1 t (goto th (ALoadNext x k0)) (sh s) (goto th (ACas x k0 nx))).
+    - unfold s2, s1. simpl. now rewrite set_nth_set_nth.
+    - simpl. eapply nth_error_set_nth_same; eauto.
+    - reflexivity. }
+  assert (E3 : step_or_stay st (step c) s2 t = s3).
+  { rewrite (step_eq c s2 t (goto th (ACas x k0 nx)) sh3 (goto th (AMark x k0))).
+    - unfold s3, s2. simpl. now rewrite set_nth_set_nth.
+    - simpl. eapply nth_error_set_nth_same; eauto.
+    - unfold tstep. simpl. rewrite Ehv. unfold k0. rewrite !Z.eqb_refl. reflexivity. }
+  assert (E4 : step_or_stay st (step c) s3 t = s4).
+  { rewrite (step_eq c s3 t (goto th (AMark x k0)) (set_nxt sh3 x (ACTIVE_FLAG (tail c)))
+                     (ret th ((x, k0) :: held th) (taken th) (RId x k0))).
+    - unfold s4, s3. simpl. now rewrite set_nth_set_nth.
+    - simpl. eapply nth_error_set_nth_same; eauto.
+    - unfold tstep. simpl. unfold finish_alloc, pop_mark_index. simpl. rewrite Hp. reflexivity. }
+  cbn [run]. rewrite E1, E2, E3, E4. simpl. rewrite Hfl. simpl. split; [reflexivity|]. split; [reflexivity|].
+  eexists. split; [eapply nth_error_set_nth_same; eauto|]. simpl. rewrite Hp. repeat split.
+Qed.
+
+(* ---------------------------------------------------------------- the real 16-bit version: ABA after 2^16 pushes *)
+Fixpoint nodupb (l : list Z) : bool :=
+  match l with [] => true | x :: r => negb (existsb (Z.eqb x) r) && nodupb r end.
+Lemma nodupb_complete : forall l, NoDup l -> nodupb l = true.
+Proof.
+  induction 1 as [|x l Hn ND IH]; simpl; auto. rewrite IH, andb_true_r. apply negb_true_iff.
+  destruct (existsb (Z.eqb x) l) eqn:E; auto. apply existsb_exists in E. destruct E as (y & Hy & Exy).
+  apply Z.eqb_eq in Exy. subst. contradiction.
+Qed.
+
+Definition c16 : cfg := {| tail := 65535; vmod := 65536 |}.
+(* thread 0 prepares free list [0;1] with head version 2; thread 1 is the allocate that stalls between its two
+   loads and its CAS; thread 2 takes 0 and 1, gives 0 back and then cycles allocate/deallocate n times *)
+Definition wrap_progs (n : nat) : list (list op) :=
+  [ [OAlloc; OAlloc; OFree 0; OFree 0]; [OAlloc; OAlloc];
+    OAlloc :: OAlloc :: OFree 1 :: concat (repeat [OAlloc; OFree 0] n) ].
+Definition wrap_sched (n : nat) : list nat :=
+  repeat 0%nat 20 ++ [1%nat; 1%nat] ++ repeat 2%nat (7 * (n + 2)) ++ repeat 1%nat 12.
+Definition wrap_final (n : nat) : st := run st (step c16) (init c16 (wrap_progs n)) (wrap_sched n).
+
+Lemma id_unique_owner_refuted :
+  exists progs sch, let s := run st (step c16) (init c16 progs) sch in
+    nv (sh s) <= ACTc c16 /\ ~ NoDup (held_values s).
+Proof.
+  exists (wrap_progs (Z.to_nat 65535)), (wrap_sched (Z.to_nat 65535)). cbv zeta. split.
+  - vm_compute. discriminate.
+  - intro ND. apply nodupb_complete in ND. revert ND. vm_compute. discriminate.
+Qed.
+(* one push fewer: nothing happens - the window has to be hit exactly *)
+Lemma id_wrap_control : nodupb (held_values (wrap_final (Z.to_nat 65534))) = true.
+Proof. vm_compute. reflexivity. Qed.
+
+(* ------------------------------------------------------------------------------------------- non-vacuity *)
+Definition cU : cfg := {| tail := 65535; vmod := 0 |}.
+Definition ex_progs : list (list op) :=
+  [ [OAlloc; OAlloc; OFree 0; OFree 0]; [OAlloc]; [OAlloc; OAlloc; OFree 1] ].
+(* a pop whose CAS is pending while head (value, version) still match *)
+Lemma id_example_cas_pending : exists s th, Reach cU ex_progs s /\ nv (sh s) <= ACTc cU /\
+  nth_error (threads s) 1 = Some th /\ tpc th = ACas 0 2 1 /\ hv (sh s) = 0 /\ hk (sh s) = 2 /\ fl (sh s) = [0; 1].
+Proof.
+  eexists. eexists. split; [exists (repeat 0%nat 20 ++ [1%nat; 1%nat]); reflexivity|]. vm_compute.
+  repeat split; try reflexivity. discriminate.
+Qed.
+(* the ABA situation: same head value 0 as the stalled pop read, other version, other link *)
+Lemma id_example_aba : exists s th, Reach cU ex_progs s /\
+  nth_error (threads s) 1 = Some th /\ tpc th = ACas 0 2 1 /\ hv (sh s) = 0 /\ hk (sh s) = 3 /\
+  getz (nxt (sh s)) 0 = 65535 /\ held_values s = [1].
+Proof.
+  eexists. eexists. split; [exists (repeat 0%nat 20 ++ [1%nat; 1%nat] ++ repeat 2%nat 11); reflexivity|]. vm_compute.
+  repeat split; reflexivity.
+Qed.
+Definition ex_box : list (list op) := [ [OEmplace; OTake 0; OFinish; OEmplace]; [OTake 0; OTake 1] ].
+(* a reused slot: two ids with value 0, the first one won, the second one in the box *)
+Lemma id_example_box : exists s, Reach cU ex_box s /\ nv (sh s) <= ACTc cU /\ quiescent s = true /\
+  ids (sh s) = [(0, 0); (0, 1)] /\ wins (sh s) = [(0, 0)] /\ boxed (sh s) = [(0, 1)] /\ live cU (sh s) = [0].
+Proof.
+  eexists. split; [exists (repeat 0%nat 30); reflexivity|]. vm_compute. repeat split; try reflexivity. discriminate.
+Qed.
